@@ -101,6 +101,7 @@ def run_profile(r, exe, profile, model_cache):
                     break
                 model_cache[c] = mres
     n_seen = 0
+    amplify = []
     for case, modes in by_case.items():
         f = case.split(" ")
         stream = {"k": "kernels", "d": "depth", "t": "templates", "e": "expressions", "f": "format-grammar"}.get(f[0], "other")
@@ -137,6 +138,15 @@ def run_profile(r, exe, profile, model_cache):
                 if impl != model_cache[case] and not res.startswith(("signal", "timeout")):
                     r.model_disagreement(f"{profile}/{mode} {case}", res, model_cache[case])
                 r.hist["model_compared"][f[1]] += 1
+        # chains stacked through a grouping primary beyond the limit: the nesting model rejects them
+        if f[0] == "d" and f[1].startswith("stk:"):
+            for mode, res in sorted(modes.items()):
+                r.hist["stacked_chain_probes"][res.split(":")[0] + (":" + res.split(":")[1] if res.startswith("err:") else "")] += 1
+                if not res.startswith(("err:SyntaxError", "signal", "timeout", "panic", "exit:")):
+                    r.model_disagreement(f"{profile}/{mode} {case}", res, "err:SyntaxError (the longest path has more than MAX_EXPR_NESTING loop-built nodes)")
+        # a `nest` disagreement where the real parser accepts what the model refuses: amplify it
+        if f[0] == "k" and f[1] == "nest" and model_cache.get(case) == "err-chain" and any(v == "ok" for v in modes.values()):
+            amplify.append(f[2])
         # the two threads must agree on everything but crashes
         vals = set(modes.values())
         if len(vals) > 1 and not any(v.startswith(("signal", "timeout", "exit:", "tie-mismatch")) or ":batch-only:" in v for v in vals):
@@ -146,6 +156,28 @@ def run_profile(r, exe, profile, model_cache):
             r.sample({"profile": profile, "case": case if len(case) < 300 else case[:300] + "…", "engine": modes,
                       "model": model_cache.get(case, "(not modelled)")})
     r.extra.setdefault("cases_per_profile", {})[profile] = len(by_case)
+    # directed search: a leak of the chain accounting compounds when the derivation is substituted into
+    # its own leaves — load and evaluate the amplified inputs in the crash oracle
+    if amplify:
+        amp_cases = []
+        for d in amplify[:8]:
+            nleaves = len(re.findall(r"(?<!\*)x", d))
+            for pos in range(min(nleaves, 4)):
+                for k in (8, 40):
+                    amp_cases.append(f"k nestamp {pos} {k} {d}")
+        rc, out, err = r.harness(exe, ["stdin"], inp="\n".join(amp_cases) + "\n", timeout=3000)
+        for line in out.splitlines():
+            parts = line.split("\t")
+            if len(parts) != 3:
+                continue
+            mode, case, res = parts
+            r.count(f"{profile} {mode} {case}", True)
+            r.hist["directed_search_after_nest_disagreement"][res.split(":")[0]] += 1
+            bad, site, what = classify(case, res)
+            if bad:
+                r.oracle_failure(case, f"[{profile}/{mode}] amplified nest disagreement: {what}", site)
+            elif res == "ok":
+                r.model_disagreement(f"{profile}/{mode} {case}", res, "err-chain")
 
 
 def validate_streams(r, exe):
